@@ -186,3 +186,4 @@ _add('C20', 'All words of <=2 lexemes as the definition of a custom selector use
 # ---- additions after wave 9 ----
 _add('C01', 'Functional lists with the complex selector in LAST and MIDDLE position and two complex selectors side by side (:is(X, A > B), :not(X, A B, Y), :where(A + B, C ~ D)), under every anchor and neighbour form of layer F.')
 _add('C08', 'Layer pairs: every unordered pair of pseudo-class atoms written as ONE compound (4444 compounds; both orders when one member reads text or keeps per-call bookkeeping) on parsed documents (quick: forms via html.parser, struct via html5lib; thorough: 6 documents x 5 builders), all entry points on the document and match() on every element.')
+_add('C09', 'Attribute values holding blanks (v w, a lone blank, TAB, leading blank, trailing LF) under every one of the seven operators, each spelled as a string and as an identifier with escapes.')
